@@ -13,20 +13,60 @@ Open Scope N_scope.
 
 (* ---- sentence 1: "after a failed attempt the credential is refused until its unlock time" *)
 
-(* The sentence as written, over reachable locks: after any history l1 and a failing
-   consultation e that arms the lock with unlock time u, every consultation at an instant
-   <= u (no new administrator expiry) is refused. *)
+(* The sentence in full, for EVERY lock state s (reachable or not) and every policy: if a
+   consultation e fails and arms the lock with unlock time u, then u lies strictly after
+   the attempt, not beyond reset_at, and every following consultation at an instant <= u
+   (any number of them, wrong or right credential, no new administrator expiry) is refused
+   without a credential check and leaves the lock exactly as it is. *)
+Theorem C28_locked_until_unlock : forall s e s' c r u l, policy_ok (pol s) = true ->
+  attempt s e = (s', Failed) -> st s' = Locked c r u ->
+  (forall e2, In e2 l -> ev_ct e2 <= u /\ quiet_for (last_exp s') e2 = true) ->
+  ev_ct e < u /\ u <= r /\
+  forall ob, In ob (exec s' l) -> ob = (Refused, Locked c r u, last_exp s').
+Proof. exact locked_until_unlock. Qed.
+
+(* The same over reachable locks, in the shape of the original sentence: after any history
+   l1 and a failing consultation e. *)
 Definition C28_full_statement : Prop :=
   forall p l1 e s' c r u l2, policy_ok p = true ->
     attempt (final (new p) l1) e = (s', Failed) -> st s' = Locked c r u ->
     (forall e2, In e2 l2 -> ev_ct e2 <= u /\ quiet_for (last_exp s') e2 = true) ->
     forall ob, In ob (exec s' l2) -> fst (fst ob) = Refused.
 
-(* It does NOT hold of the code: a lock whose unlock time lies beyond its window's reset
-   time is re-opened by the window reset.  Witness: a password credential with 3 failures
-   in the day fails again 2 s before midnight UTC (3 s delay => unlock 1 s after midnight,
-   reset at midnight); a consultation AT the unlock instant is let through. *)
-Theorem C28_refuted : ~ C28_full_statement.
+Theorem C28_full_statement_holds : C28_full_statement.
+Proof.
+  intros p l1 e s' c r u l2 Hok Ha Hs Hl ob Hin.
+  assert (Hp : policy_ok (pol (final (new p) l1)) = true) by (rewrite final_pol; exact Hok).
+  destruct (locked_until_unlock _ e s' c r u l2 Hp Ha Hs Hl) as (_ & _ & H).
+  rewrite (H ob Hin). reflexivity.
+Qed.
+
+(* any locked state (also one whose reset_at an administrator expiry has pulled in) stays
+   refused and unchanged up to min(unlock_at, reset_at) *)
+Theorem C28_locked_state_stays_locked : forall s c r u l,
+  st s = Locked c r u ->
+  (forall e, In e l -> ev_ct e <= N.min u r /\ quiet_for (last_exp s) e = true) ->
+  forall ob, In ob (exec s l) -> ob = (Refused, Locked c r u, last_exp s).
+Proof. exact (fun s c r u l => locked_until_min l s c r u). Qed.
+
+(* without administrator expiry, every lock that a history produces has unlock_at <= reset_at *)
+Theorem C28_unlock_never_beyond_reset : forall p l, quiet_all 0 l = true ->
+  lock_wf (st (final (new p) l)).
+Proof. intros p l Hq. apply (final_lock_wf l (new p)); [exact I|exact Hq]. Qed.
+
+(* THE DEFECT THIS CHECK FOUND (fixed in /repo commit 5cd0e73).  Before the fix reset_at was
+   the bare window end (failure_next_state_prefix), and the same sentence was false: a lock
+   whose unlock time lay beyond its window's reset time was re-opened by the window reset.
+   Witness: a password credential with 3 failures in the day fails again 2 s before midnight
+   UTC (3 s delay => unlock 1 s after midnight, reset at midnight); a consultation AT the
+   unlock instant was let through.  Confirmed on the real server before the fix. *)
+Definition C28_prefix_statement : Prop :=
+  forall p l1 e s' c r u l2, policy_ok p = true ->
+    attempt_prefix (final_prefix (new p) l1) e = (s', Failed) -> st s' = Locked c r u ->
+    (forall e2, In e2 l2 -> ev_ct e2 <= u /\ quiet_for (last_exp s') e2 = true) ->
+    forall ob, In ob (exec_prefix s' l2) -> fst (fst ob) = Refused.
+
+Theorem C28_prefix_refuted : ~ C28_prefix_statement.
 Proof.
   intros H.
   pose (t := fun s : N => s * G).
@@ -42,26 +82,6 @@ Proof.
     - intros e2 [<-|[]]. split; [vm_compute; discriminate|reflexivity].
     - vm_compute. left. reflexivity. }
   discriminate H1.
-Qed.
-
-(* What does hold, for EVERY lock state (reachable or not) and every policy: a locked
-   credential stays refused — and the lock is unchanged — at every consultation up to
-   min(unlock_at, reset_at) (no new administrator expiry).  Outside the class
-   KnownClass = { locks with reset_at < unlock_at } this is the full sentence. *)
-Theorem C28_locked_until_unlock_partial : forall s c r u l,
-  st s = Locked c r u ->
-  (forall e, In e l -> ev_ct e <= N.min u r /\ quiet_for (last_exp s) e = true) ->
-  forall ob, In ob (exec s l) -> ob = (Refused, Locked c r u, last_exp s).
-Proof. exact (fun s c r u l => locked_until_min l s c r u). Qed.
-
-Theorem C28_locked_until_unlock_outside_known_class : forall s c r u l,
-  st s = Locked c r u -> u <= r ->
-  (forall e, In e l -> ev_ct e <= u /\ quiet_for (last_exp s) e = true) ->
-  forall ob, In ob (exec s l) -> fst (fst ob) = Refused.
-Proof.
-  intros s c r u l Hs Hur Hl ob Hin.
-  rewrite (locked_until_min l s c r u Hs) with (ob := ob); [reflexivity| |exact Hin].
-  intros e He. destruct (Hl e He) as [H1 H2]. split; [lia|exact H2].
 Qed.
 
 (* a wrong credential always arms a lock that ends strictly later than the attempt
@@ -116,10 +136,11 @@ Theorem C28_reset_only_after_window : forall s e,
   reset_cond (st s) (last_exp s) e = true.
 Proof. exact count_drop. Qed.
 
-(* reset_at never lies before the end of the window (UTC day / TOTP step) of the failure *)
-Theorem C28_reset_at_is_window_end : forall p P cap c ct, limit_of p = Some (P, cap) ->
-  exists u, failure_next_state p c ct = Locked c ((ct / P + 1) * P) u /\ ct < u /\
-            (cap <= c -> u = (ct / P + 1) * P).
+(* reset_at never lies before the end of the window (UTC day / TOTP step) of the failure,
+   and at or beyond the cap the lock lasts exactly until that window end *)
+Theorem C28_reset_at_covers_window : forall p P cap c ct, limit_of p = Some (P, cap) ->
+  exists r u, failure_next_state p c ct = Locked c r u /\ (ct / P + 1) * P <= r /\ ct < u /\
+              u <= r /\ (cap <= c -> u = (ct / P + 1) * P /\ r = u).
 Proof. intros p P cap c ct H. destruct (fns_window p P cap c ct H) as (_ & _ & H'). exact H'. Qed.
 
 (* ---- sentence 3: the rate limits *)
@@ -149,14 +170,5 @@ Qed.
 
 (* ---- bridge: a run without disagreements transfers everything to the observed cases *)
 Theorem C28_agree_implies_property : forall c, case_ok c = true -> agree c = true ->
-  pcheck c || known c = true.
+  pcheck c = true.
 Proof. exact agree_property. Qed.
-
-(* known-class cases are exactly: the full sentence fails, its partial form and all the
-   other predicates hold *)
-Theorem C28_known_class : forall src p evs impl,
-  known (CEvents src p evs impl) = true <->
-  locked_ok true evs impl = false /\ locked_ok false evs impl = true /\ rest_ok p evs impl = true.
-Proof.
-  intros src p evs impl. cbn [known]. rewrite !andb_true_iff, negb_true_iff. tauto.
-Qed.
